@@ -3,6 +3,7 @@ import KcpVerif.Lemmas.KcpFlush
 import KcpVerif.Lemmas.KcpLive
 import KcpVerif.Lemmas.KcpState
 import KcpVerif.Lemmas.KcpTimer
+import KcpVerif.Lemmas.KcpMove
 /-! C02 — eventual delivery: a healed network always drains the backlog. -/
 namespace KcpVerif.Props
 open KcpVerif KcpVerif.Gen KcpVerif.Kcp
@@ -353,5 +354,25 @@ theorem C02_retx_armed_reachable (conv : U32) (ops : List Op) (s : Seg) (now : U
 the segment is in `snd_buf` with `xmit = 1`, `ts = 200`, `rto = 200`, `resendts = 400` -/
 example : (run (Kcp.new 1) [.send [1, 2, 3], .flush true 100, .flush true 200]).snd_buf.map
     (fun s => (s.xmit, s.ts, s.rto, s.resendts)) = [(1, 200, 200, 400)] := by decide
+
+/-! ### `heap_top_advances` as an invariant of reachable states -/
+
+/-- `MoveFix` — a deliverable head of `rcv_buf` is blocked only by a full delivery queue — is kept by
+every operation with arbitrary arguments and holds in every state reachable from `NewKCP`.  The
+only hypothesis (`wndOk`, `True` for all other operations): `WndSize` does not ENLARGE `rcv_wnd`
+while segments are buffered (settings before traffic); after such a call the head stays in
+`rcv_buf` until the next `Recv`/`parse_data` runs the move loop. -/
+theorem C02_heap_top_reachable (conv : U32) (ops : List Op) (k : Kcp) (op : Op) :
+    (MoveFix k → wndOk k op → MoveFix (step k op)) ∧
+    (runWndOk (Kcp.new conv) ops → MoveFix (run (Kcp.new conv) ops)) :=
+  ⟨step_fix k op, run_fix _ ops (new_fix conv)⟩
+
+/-- the hypothesis is needed: enlarging the window with a deliverable head in `rcv_buf` -/
+example : ¬ MoveFix (wndSize
+    { Kcp.new 1 with rcv_wnd := 1, rcv_nxt := 1, rcv_queue := [{ sn := 0 }], rcv_buf := [{ sn := 1 }] } 0 2) := by
+  intro h
+  have := h { sn := 1 } [] rfl rfl
+  revert this
+  decide
 
 end KcpVerif.Props
